@@ -91,8 +91,9 @@ impl EventGen for ReuseElement {
         // was on the `reuse` element.
         let ref_id = instance_element.pop_attr("id");
         if let Some(inst_id) = reuse_element.get_attr("id") {
+            // (the id becomes visible to references when the positioned instance is
+            // evaluated below, not before: a referrer must not see an unplaced reuse)
             instance_element.set_attr("id", &inst_id);
-            context.update_element(&reuse_element);
         }
         // the instanced element should have the same indent as the original
         // `reuse` element, as well as inherit `style` and `class` values.
